@@ -123,7 +123,7 @@ def oracle(sc, ctx, program):
     out = []
 
     def factory():
-        return bpm.run(sc, program).hugr
+        return bpm.run(sc, program, observe=True).hugr  # the graph was looked at after every builder call
 
     for hist, h in mutate.histories(factory, _DEPTH, _TIER):
         tag = "+".join(m[0] for m in hist) or "built"
@@ -152,7 +152,7 @@ def _ladder_chunk(cases):
 def run_ladder(tier, col):
     from mc.engine.core import pmap
 
-    cases = list(ladder.cases_for(tier))
+    cases = list(ladder.cases_for(tier, leftovers=True))
     for res in pmap(_ladder_chunk, [cases[i::64] for i in range(64)]):
         for case, fails in res:
             for sig, msg in fails:
